@@ -26,6 +26,8 @@ U_BITS_DEP = {'spec': 'bits.spec', 'dependency': True}
 U_PER = {'spec': 'per.spec'}
 U_PER_DEP = {'spec': 'per.spec', 'dependency': True}
 U_LEMMAS = {'spec': 'lemmas.spec', 'dependency': True}
+U_SCOPE = {'spec': 'scope.spec'}
+U_SCOPE_DEP = {'spec': 'scope.spec', 'dependency': True}
 
 PER_ASSUMPTIONS = [
     'trait contracts of BitRead/BitWrite are assumed for the generic T in unit per and proved for every implementation in unit bits',
@@ -75,6 +77,33 @@ PROPS = {
         'explanation': 'For every PackedWrite entry point the post-condition r is Ok ==> admissible(args) is verified (INTEGER range incl. single-value ranges, '
                        'length determinant bounds, SIZE of octet/bit strings, CHOICE/ENUMERATED index), with the error kind and "nothing written" on rejection; '
                        'extensible out-of-root values are proved to take the extension form. Charset::is_valid equals the X.680 alphabets for all chars (Kani, complete).',
+    },
+    'C03': {
+        'verus': [U_SCOPE, U_PER_DEP, U_BITS_DEP],
+        'assumptions': [
+            'generated write_seq/read_seq call the presence protocol exactly once per component, in declaration order, and write/read the component payload in between (text emission of walker.rs; modelled by append_payload / consume_payload: arbitrary appends / cursor advances)',
+            'the constants STD_OPTIONAL_FIELDS / FIELD_COUNT / EXTENDED_AFTER_FIELD of the generated code describe the shape (shape_ok, wscope_root / rscope_root)',
+            'contracts of BitBuffer / PackedWrite / PackedRead are assumed in unit scope and proved in units bits / per (same sidecar text)',
+        ],
+        'trusted_base': COMMON_TRUSTED + PER_TRUSTED + ['R17: `&mut impl Trait` argument named as generic parameter', 'R10a: Option::as_mut().filter().map().transpose() chain rewritten to if-let/match (closure captured a &mut)',
+                                                        'R11: debug_assert!(c, msg) -> assert!(c)', 'stand-ins for derive(Clone) on Scope and derive(Default) on UperWriter (verified)',
+                                                        'assume_specification: Option<Result<T,E>>::transpose'],
+        'explanation': 'Scope::write_into_field and Scope::read_from_field (the real functions, all four variants) are verified against functional step contracts; on top of them two driver '
+                       'lemmas are verified as exec functions whose loop calls the real step function once per component with an arbitrary payload in between: for ANY number of '
+                       'components, any mix of mandatory/OPTIONAL/DEFAULT, any marker position and any presence pattern the preamble carries exactly one presence bit per optional root '
+                       'component in order, the extension bit is set iff an addition is present, the addition header is count-1 as normally small number followed by one bit per addition, '
+                       'Err <=> first addition absent and a later one present (ExtensionFieldsInconsistent), the scope ends exhausted; the reader driver reports exactly those bits.',
+    },
+    'C05': {
+        'verus': [U_SCOPE, U_PER_DEP, U_BITS_DEP],
+        'assumptions': [
+            'same modelling assumptions as C03 (generated glue calls the protocol once per component)',
+            'direction V2 -> V1 with unknown additions PRESENT is a recorded known finding (KF-C05-unknown-additions): the lemma covers transmitted counts above the local count for the known additions and the bitmap skip, not the skipping of the unknown open types',
+            'open-type wrapping (with_buffer / read_whole_sub_slice) is not yet under contract in this check',
+        ],
+        'trusted_base': COMMON_TRUSTED + PER_TRUSTED,
+        'explanation': 'The reader driver lemma is stated for an ARBITRARY transmitted addition count k (read from the input) against the local count m: additions j < min(k, m) report bit j of the '
+                       'transmitted bitmap, additions j >= k are absent, the cursor moves past all k bitmap bits; without the extension bit every addition is absent. Unbounded in counts and shapes.',
     },
     'C20': {
         'kani_quick': [('der_length_roundtrip', 300, True), ('der_identifier_roundtrip', 300, True), ('der_boolean', 300, True),
